@@ -598,7 +598,7 @@ TRANSPARENT = {
     "TryFrom::try_from", "TryInto::try_into", "Result::unwrap_or", "Option::map_or", "NonNull::as_ptr",
     "NonNull::new_unchecked", "NonNull::cast", "pin::pin", "slice::get", "slice::get_mut", "Index::index",
     "IndexMut::index_mut", "Result::ok_or", "const_ptr::cast_mut", "const_ptr::cast", "mut_ptr::cast",
-    "mut_ptr::cast_const", "slice::as_ptr", "slice::as_mut_ptr", "Result::and_then", "Option::and_then", "Result::map", "Option::map", "Option::unwrap_unchecked", "Result::unwrap_unchecked",
+    "mut_ptr::cast_const", "slice::iter", "slice::iter_mut", "IntoIterator::into_iter", "slice::as_ptr", "slice::as_mut_ptr", "Result::and_then", "Option::and_then", "Result::map", "Option::map", "Option::unwrap_unchecked", "Result::unwrap_unchecked",
 }
 AWAIT_POLL = {"Future::poll"}
 
@@ -607,11 +607,12 @@ class Prov:
     """Backward, flow-insensitive provenance over one body (optionally into the parent for
     closure captures)."""
 
-    def __init__(self, body, cuts=(), transparent=TRANSPARENT, stop_at_fields=False):
+    def __init__(self, body, cuts=(), transparent=TRANSPARENT, stop_at_fields=False, follow_all=()):
         self.body = body
         self.cuts = set(cuts)
         self.transparent = set(transparent)
         self.stop_at_fields = stop_at_fields
+        self.follow_all = set(follow_all)
         self._memo = {}
 
     def of_operand(self, op):
@@ -733,6 +734,11 @@ class Prov:
                     roots.add(("await",) + r[1:])
                 else:
                     roots.add(r)
+            return roots
+        if name_set & self.follow_all:
+            for a in c.args:
+                roots |= self.of_operand(a)
+            roots.add(("via", c.name))
             return roots
         if name_set & self.transparent:
             for a in c.args[:1]:
